@@ -190,6 +190,7 @@ func c20GenLlama(t *rapid.T) c20Case {
 	c.AddBOS = rapid.IntRange(0, 3).Draw(t, "addbos") > 0
 	c.AddEOS = rapid.IntRange(0, 3).Draw(t, "addeos") == 0
 	c.Parts = c20GenParts(t, "", c20LlamaLiterals())
+	c.Long = c20MaybeLong(t, c20LlamaLiterals())
 	return c
 }
 
@@ -261,7 +262,7 @@ func c20SynthVocab(c c20Case) *Vocabulary {
 	merges := append([][2]string{}, c20BaseMerges[c.Pre]...)
 	nbase := len(merges)
 	if c.NMerges > 0 {
-		merges = append(merges, c20Train(c20BPEWords(c.Pre, c.text()+"\n"+strings.Join(c.Train, "")), c.NMerges)...)
+		merges = append(merges, c20Train(c20BPEWords(c.Pre, c.vocabText()+"\n"+strings.Join(c.Train, "")), c.NMerges)...)
 	}
 	mseen := map[[2]string]bool{}
 	for i, m := range merges {
@@ -302,6 +303,7 @@ func c20GenSynth(t *rapid.T) c20Case {
 	if rapid.IntRange(0, 5).Draw(t, "drop") == 0 {
 		c.DropEvery = rapid.IntRange(1, 4).Draw(t, "dropevery")
 	}
+	c.Long = c20MaybeLong(t, c20SynthSpecials)
 	return c
 }
 
